@@ -1208,7 +1208,6 @@ impl KotoVm {
             _ => None,
         };
         let Some((key, value)) = maybe_key_value_pair else {
-            dbg!(&self.registers);
             return unexpected_type("Key/Value pair to export", &maybe_entry);
         };
         self.exports
